@@ -118,6 +118,13 @@ func c06Unit(j *Job, u *JobUnit) error {
 				}
 			}
 			Enumerate(m.In, inDims, devFor(inDims), func(p Point) bool {
+				for _, pv := range m.PathVars {
+					if fd := p.Msg.ProtoReflect().Descriptor().Fields().ByName(protoName(pv)); fd != nil && fd.Kind() == protoreflect.StringKind {
+						if v := p.Msg.ProtoReflect().Get(fd).String(); v == "." || v == ".." {
+							return true // dot segments never reach the route (C01-dot-segment-path-values); nothing to validate
+						}
+					}
+				}
 				if !violatesRules(p.Msg) {
 					record("req:"+devClass(p), p.Msg, fullOut, nil)
 				} else {
